@@ -315,7 +315,9 @@ def trim_predicates(vc):
     P = _tiling_inputs(vc)
     fi = vc.interp.lookup(SU + ':split_array')
     lams = [n for n in ast.walk(fi.node) if isinstance(n, ast.Lambda)]
-    vc.ensure('C19/split_array/trim/two-filter-predicates-found', len(lams) == 2)
+    if len(lams) != 2:
+        # the contract no longer matches the code's structure: undecided here (the bounded run still decides the trimming clause)
+        raise Unsupported(f"split_array: expected the two trim filter predicates, found {len(lams)} lambda(s)")
     r, c = Int('r'), Int('c')
     vc.assume(And(r >= 0, r < P['R'], c >= 0, c < P['C']))
     t = P['tile'](r, c)
